@@ -982,7 +982,17 @@ def oracleC11 (o : Opts) (env : Env) (inN outN : Node) : Verdict :=
   if o.resolveType then .skip "resolveType" else
   let sv := semView o env (effectivePragma o env) inN outN
   let ps := sv.pairs.filter inDom
-  match ps.find? (fun p => !(creationTrace p.d == creationTrace p.e)) with
+  -- among the pairs whose traces differ, one that carries a recorded v-model mechanism is reported first: vnodes NESTED in the props
+  -- of such an element are paired through its (deviating) props, so their misalignment is a consequence of it, not a second failure
+  let failing := ps.filter (fun p => !(creationTrace p.d == creationTrace p.e))
+  -- vnodes are paired in evaluation order; where an element carrying a recorded v-model mechanism names a listener differently, the
+  -- ORDER of the vnodes nested in its props differs (no merge with a same-named attribute) and the pairs after it are misaligned
+  -- (different tags): then that element is the one to report
+  let tagOf (v : Node) : Node := (v.kids.head?).getD nNone
+  let misaligned := ps.any fun p => !(canon (tagOf p.d) == canon (tagOf p.e))
+  let carrier := sv.pairs.find? fun p => ["vmodel-computed-arg", "vmodel-arg-on-element"].any (p.d.atoms.contains ·)
+  match (if misaligned && !failing.isEmpty then carrier else none).orElse (fun _ =>
+      (failing.find? fun p => ["vmodel-computed-arg", "vmodel-arg-on-element"].any (p.d.atoms.contains ·)).orElse (fun _ => failing.head?)) with
   | some p =>
     -- the recorded v-model mechanisms explain a difference on the element that carries them; a captured copy only
     -- when it occurs in the trace itself
